@@ -34,11 +34,14 @@ macro_rules! fixed_cmp_fixed {
                     Self::FRAC_NBITS,
                     Self::INT_NBITS,
                 );
-                let rhs_bits = match conv.bits {
-                    Widest::Unsigned(bits) => bits as <Self as Fixed>::Bits,
-                    Widest::Negative(bits) => bits as <Self as Fixed>::Bits,
+                let (rhs_is_neg, rhs_bits) = match conv.bits {
+                    Widest::Unsigned(bits) => (false, bits as <Self as Fixed>::Bits),
+                    Widest::Negative(bits) => (true, bits as <Self as Fixed>::Bits),
                 };
-                conv.dir == Ordering::Equal && !conv.overflow && rhs_bits == self.to_bits()
+                conv.dir == Ordering::Equal
+                    && !conv.overflow
+                    && rhs_bits.is_negative() == rhs_is_neg
+                    && rhs_bits == self.to_bits()
             }
         }
 
@@ -55,17 +58,18 @@ macro_rules! fixed_cmp_fixed {
                     Self::FRAC_NBITS,
                     Self::INT_NBITS,
                 );
-                if conv.overflow {
+                let rhs_bits = match conv.bits {
+                    Widest::Unsigned(bits) => bits as <Self as Fixed>::Bits,
+                    Widest::Negative(bits) => bits as <Self as Fixed>::Bits,
+                };
+                // a right-hand side that changes sign when narrowed does not fit either
+                if conv.overflow || rhs_bits.is_negative() != rhs.to_bits().is_negative() {
                     return if rhs.to_bits().is_negative() {
                         Some(Ordering::Greater)
                     } else {
                         Some(Ordering::Less)
                     };
                 }
-                let rhs_bits = match conv.bits {
-                    Widest::Unsigned(bits) => bits as <Self as Fixed>::Bits,
-                    Widest::Negative(bits) => bits as <Self as Fixed>::Bits,
-                };
                 Some(self.to_bits().cmp(&rhs_bits).then(conv.dir))
             }
 
@@ -81,13 +85,13 @@ macro_rules! fixed_cmp_fixed {
                     Self::FRAC_NBITS,
                     Self::INT_NBITS,
                 );
-                if conv.overflow {
-                    return !rhs.to_bits().is_negative();
-                }
                 let rhs_bits = match conv.bits {
                     Widest::Unsigned(bits) => bits as <Self as Fixed>::Bits,
                     Widest::Negative(bits) => bits as <Self as Fixed>::Bits,
                 };
+                if conv.overflow || rhs_bits.is_negative() != rhs.to_bits().is_negative() {
+                    return !rhs.to_bits().is_negative();
+                }
                 self.to_bits() < rhs_bits
                     || (self.to_bits() == rhs_bits && conv.dir == Ordering::Less)
             }
@@ -191,11 +195,14 @@ macro_rules! fixed_cmp_float {
                     FloatKind::Finite { conv, .. } => conv,
                     _ => return false,
                 };
-                let rhs_bits = match conv.bits {
-                    Widest::Unsigned(bits) => bits as <Self as Fixed>::Bits,
-                    Widest::Negative(bits) => bits as <Self as Fixed>::Bits,
+                let (rhs_is_neg, rhs_bits) = match conv.bits {
+                    Widest::Unsigned(bits) => (false, bits as <Self as Fixed>::Bits),
+                    Widest::Negative(bits) => (true, bits as <Self as Fixed>::Bits),
                 };
-                conv.dir == Ordering::Equal && !conv.overflow && rhs_bits == self.to_bits()
+                conv.dir == Ordering::Equal
+                    && !conv.overflow
+                    && rhs_bits.is_negative() == rhs_is_neg
+                    && rhs_bits == self.to_bits()
             }
         }
 
@@ -226,17 +233,17 @@ macro_rules! fixed_cmp_float {
                     (true, false) => return Some(Ordering::Less),
                     _ => {}
                 }
-                if conv.overflow {
+                let rhs_bits = match conv.bits {
+                    Widest::Unsigned(bits) => bits as <Self as Fixed>::Bits,
+                    Widest::Negative(bits) => bits as <Self as Fixed>::Bits,
+                };
+                if conv.overflow || (rhs_bits != 0 && rhs_bits.is_negative() != rhs_is_neg) {
                     return if rhs_is_neg {
                         Some(Ordering::Greater)
                     } else {
                         Some(Ordering::Less)
                     };
                 }
-                let rhs_bits = match conv.bits {
-                    Widest::Unsigned(bits) => bits as <Self as Fixed>::Bits,
-                    Widest::Negative(bits) => bits as <Self as Fixed>::Bits,
-                };
                 Some(self.to_bits().cmp(&rhs_bits).then(conv.dir))
             }
 
@@ -254,13 +261,13 @@ macro_rules! fixed_cmp_float {
                     (true, false) => return true,
                     _ => {}
                 }
-                if conv.overflow {
-                    return !rhs_is_neg;
-                }
                 let rhs_bits = match conv.bits {
                     Widest::Unsigned(bits) => bits as <Self as Fixed>::Bits,
                     Widest::Negative(bits) => bits as <Self as Fixed>::Bits,
                 };
+                if conv.overflow || (rhs_bits != 0 && rhs_bits.is_negative() != rhs_is_neg) {
+                    return !rhs_is_neg;
+                }
                 let lhs_bits = self.to_bits();
                 lhs_bits < rhs_bits || (lhs_bits == rhs_bits && conv.dir == Ordering::Less)
             }
@@ -301,13 +308,13 @@ macro_rules! fixed_cmp_float {
                     (true, false) => return true,
                     _ => {}
                 }
-                if conv.overflow {
-                    return lhs_is_neg;
-                }
                 let lhs_bits = match conv.bits {
                     Widest::Unsigned(bits) => bits as <$Fix<Frac> as Fixed>::Bits,
                     Widest::Negative(bits) => bits as <$Fix<Frac> as Fixed>::Bits,
                 };
+                if conv.overflow || (lhs_bits != 0 && lhs_bits.is_negative() != lhs_is_neg) {
+                    return lhs_is_neg;
+                }
                 let rhs_bits = rhs.to_bits();
                 lhs_bits < rhs_bits || (lhs_bits == rhs_bits && conv.dir == Ordering::Greater)
             }
